@@ -71,10 +71,12 @@ def mutate(rng, impl, obj, n):
             R.seed_numba(rng.randrange(1 << 30))
             obj.measure(impl.plist([G.rand_herm(rng, n, nonid=True)], n))
         else:
+            # the caller scribbles over an array it owns; this leaves an arbitrary (possibly invalid) object, so no library call follows
             for a in arrays(obj):
                 if a.size:
                     a.flat[rng.randrange(a.size)] = (a.flat[rng.randrange(a.size)] + 1) % 2 if a.dtype != np.complex128 else a.flat[0] + 1
                     break
+            return
 
 
 def run(ctx):
